@@ -2,6 +2,7 @@ package main
 
 import (
 	"fmt"
+	"runtime"
 	"strings"
 	"unicode/utf8"
 
@@ -606,6 +607,45 @@ func genSinkInterleaved(r *Rng) []*Scenario {
 
 // ---- evaluation --------------------------------------------------------------
 
+var evalSeq int // evaluations of this process so far (preludes included)
+
+// retainedParse: root blocks of an earlier, finished parse of this process and
+// what they looked like when that parse ended.  A caller may hold blocks for
+// as long as it likes; a later, separate parse must not disturb them (a read
+// buffer recycled through a pool when its parser reaches EOF would).
+type retainedParse struct {
+	blocks []*commonmark.RootBlock
+	snaps  []string
+	what   string
+}
+
+var retained []retainedParse
+
+func checkRetained() string {
+	for _, rp := range retained {
+		for i, b := range rp.blocks {
+			if now := snapRoot(b); now != rp.snaps[i] {
+				return fmt.Sprintf("block %d of an EARLIER, finished parse (%s) changed while a later, separate parse ran: %s", i, rp.what, firstDiff(rp.snaps[i], now))
+			}
+		}
+	}
+	return ""
+}
+
+func retain(blocks []*commonmark.RootBlock, what string) {
+	if len(blocks) == 0 {
+		return
+	}
+	rp := retainedParse{blocks: blocks, what: what}
+	for _, b := range blocks {
+		rp.snaps = append(rp.snaps, snapRoot(b))
+	}
+	retained = append(retained, rp)
+	if len(retained) > 1 {
+		retained = retained[len(retained)-1:]
+	}
+}
+
 // evaluate runs one scenario and updates the statistics.  It is a pure
 // function of the scenario and the code under test.
 func evaluate(s *Scenario, st *runStats) (fail *Failure) {
@@ -617,6 +657,10 @@ func evaluate(s *Scenario, st *runStats) (fail *Failure) {
 	}
 	st.Evaluations++
 	st.Outcome = 0
+	evalSeq++
+	if evalSeq%96 == 0 {
+		runtime.GC() // the only collections of this process (see setupProcess)
+	}
 	nontrivial := false
 	applyKnobs(s.Knobs)
 	defer applyKnobs(nil)
@@ -644,6 +688,19 @@ func evaluate(s *Scenario, st *runStats) (fail *Failure) {
 			return checkC08(s.Doc, s.Reader, obs)
 		})
 		if obs != nil {
+			if fail == nil {
+				if msg := checkRetained(); msg != "" {
+					id := "stability"
+					if s.Property == "C08" {
+						id = "snap"
+					}
+					fail = &Failure{Check: id, Observed: msg}
+				}
+			}
+			if len(s.Doc) <= 8192 && (evalSeq%3 == 0 || len(retained) == 0) {
+				// one parse in three is kept (and watched during the next three)
+				retain(obs.Blocks, fmt.Sprintf("streaming, %d bytes, seed %d run %d", len(s.Doc), s.Seed, s.Run))
+			}
 			nontrivial = streamStats(s, obs, st)
 			h := uint64(len(obs.Blocks))<<32 ^ uint64(obs.NextCalls)
 			for _, e := range obs.Reader.Hist {
